@@ -64,7 +64,5 @@ func abiSkipLiteral(f *ast.File, fn string) string {
 	return lit
 }
 
-func genNames(t *target, facts map[string]interface{}) error  { return nil }
-func genPurity(t *target, facts map[string]interface{}) error { return nil }
 
 func readFile(path string) ([]byte, error) { return os.ReadFile(path) }
